@@ -26,5 +26,6 @@ theorem Ristretto_decompress_step_2_ok26 : (sig_Ristretto_decompress_step_2 I26)
 theorem Ristretto_batch_state_from_ok26 : (sig_Ristretto_batch_state_from I26).ok B26 = true := by decide +kernel
 theorem Ristretto_batch_compress_closure_ok26 : (sig_Ristretto_batch_compress_closure I26).ok B26 = true := by decide +kernel
 theorem Field_invert_ok26 : (sig_Field_invert I26).ok B26 = true := by decide +kernel
+theorem Field_invsqrt_ok26 : (sig_Field_invsqrt I26).ok B26 = true := by decide +kernel
 
 end Dalek.Props.C11.Formulas
